@@ -59,6 +59,7 @@ func runC09(c *Ctx) {
 	ruleJoinerSignatures(c, "R9.3")
 	ruleKeyBinding(c, "R9.4")
 	ruleSignedCoverage(c, "R9.5")
+	ruleStateReadsAreCopies(c, "R9.6")
 }
 
 // verifyMessage: nil only after AuthScheme.Verify succeeded on messageForSigning(beaconID, packet, proposal) with the
@@ -316,6 +317,27 @@ func ruleKeyBinding(c *Ctx, rule string) {
 			}
 		})
 		c.Ok(rule, "previous-epoch participants are rebuilt from the stored final group with address and key", c.P.Pos(fr.Pos()), nFields["Address"] && nFields["Key"], "fields set: "+strings.Join(sortedKeys(nFields), ","))
+		// membership of the previous epoch is what the final group file says, nothing else: the participant lists of the
+		// stored *proposal* (Remaining / Joining / Leaving of the state) also name nodes that never got a share
+		nCA := 0
+		for _, ci := range callsIn(fr, func(ci ssa.CallInstruction) bool { return strings.HasSuffix(calleeName(ci), "internal/util.ContainsAll") }) {
+			nCA++
+			bad := ""
+			for _, a := range ci.Common().Args {
+				fromTerms := hasOrigin(originsExpanded(a, 0), func(o Origin) bool { return o.Kind == "field" && strings.Contains(o.Name, "ProposalTerms.") })
+				if fromTerms {
+					continue // the proposal under validation
+				}
+				for _, o := range originsExpanded(a, 0) {
+					if o.Kind == "field" && (strings.HasSuffix(o.Name, "DBState.Remaining") || strings.HasSuffix(o.Name, "DBState.Joining") || strings.HasSuffix(o.Name, "DBState.Leaving")) {
+						bad = o.Name
+					}
+				}
+			}
+			c.Ok(rule, "validateReshareForRemainers compares the proposal with the members of the final group only", shortPos(c.P, ci), bad == "",
+				ifStr(bad != "", "the reference list also draws on "+bad+" (participants of the last proposal, whether or not they made it into the group)"))
+		}
+		c.Floor(rule, "membership comparisons in validateReshareForRemainers", nCA, 2)
 	}
 	// key selection in verifyMessage: first match over Concat(Remaining, Joining)
 	vm := c.P.Fn("internal/dkg.(*Process).verifyMessage")
@@ -687,4 +709,31 @@ func ruleSignedCoverage(c *Ctx, rule string) {
 			c.Ok(rule, "termsFromState fills ProposalTerms."+f+" from the state", c.P.Pos(tf.Pos()), ok, "")
 		}
 	}
+}
+
+// R9.6: a packet is applied to a private copy of the stored state. applyPacketToState computes the next state (the
+// handlers update the object they are given) *before* it verifies the packet's signature against it, and saves only after
+// the verification; that order is safe only because every read of the state store hands out a freshly decoded object. A
+// store that returns a retained pointer lets a refused, unauthenticated packet change the node's live state.
+func ruleStateReadsAreCopies(c *Ctx, rule string) {
+	c.ranRules[rule] = true
+	n := 0
+	for _, key := range []string{"internal/dkg.(*BoltStore).get", "internal/dkg.(*BoltStore).GetCurrent", "internal/dkg.(*BoltStore).GetFinished"} {
+		fn := c.P.Fn(key)
+		if fn == nil {
+			continue
+		}
+		n++
+		bad := ""
+		for _, lf := range returnLeaves(fn, 0) {
+			for _, o := range originsExpanded(lf.v, 0) {
+				if o.Kind == "lookup" || (o.Kind == "field" && strings.Contains(o.Name, "internal/dkg.BoltStore.") && !strings.HasSuffix(o.Name, ".db") && !strings.HasSuffix(o.Name, ".log")) {
+					bad = o.String()
+				}
+			}
+		}
+		c.Ok(rule, fnShort(fn)+" returns a freshly decoded state", c.P.Pos(fn.Pos()), bad == "",
+			ifStr(bad != "", "the returned state can be an object the store keeps ("+bad+"): callers that update it before saving change what every later reader sees"))
+	}
+	c.Floor(rule, "state readers of the DKG store", n, 2)
 }
